@@ -167,6 +167,37 @@ class World:
         self.lines.append(('rm %d %d' % (i, j), m.split('|')[0], r))
         return m.split('|')[0], r
 
+    def dotx(self, i, key, nid, value=None, inst=None):
+        """obj.xml_<x> = value | None | element instance"""
+        o = self.objs[i]
+        before = list(o.get_children(ordered=False))
+        arg = self.objs[inst] if inst is not None else value
+        (s, e), out = quiet(setattr, o, key, arg)
+        self.printed += out
+        if s == 'ok':
+            r = 'ok'
+            after = o.get_children(ordered=False)
+            new = [c for c in after if not any(c is b for b in before)]
+            if inst is None and new:
+                self.objs[nid] = new[0]
+        else:
+            n = type(e).__name__
+            r = exc_enum(e, 'add') if n in DOCUMENTED else ('err:notAChild' if n == 'ValueError' and False else real_exc(e))
+        a = ('inst:%d' % inst) if inst is not None else enc(value)
+        return self.step('dotx %d %s %d %s' % (i, key.encode().hex(), nid, a), r)
+
+    def getx(self, i, key):
+        (s, e), out = quiet(getattr, self.objs[i], key)
+        if s == 'ok':
+            if e is None:
+                r = 'child:none'
+            else:
+                inv = {id(x): k for k, x in self.objs.items()}
+                r = 'child:%s' % inv.get(id(e), '?')
+        else:
+            r = real_exc(e)
+        return self.step('getx %d %s' % (i, key.encode().hex()), r)
+
     def tostr(self, i, ic=False):
         (s, e), out = quiet(self.objs[i].to_string, ic)
         self.printed += out
@@ -246,7 +277,7 @@ def build_tree(w, rnd, cls, depth, nid, chk=True, valid=True, mixed_chk=False):
     return i
 
 
-def doc_case(drv, rnd, cls=None, depth=2, mixed_chk=False, mutate=True, copy=False):
+def doc_case(drv, rnd, cls=None, depth=2, mixed_chk=False, mutate=True, copy=False, dots=True):
     """one generated document + a few mutations + serialisations; returns the World"""
     w = World(drv)
     cls = cls or rnd.choice(ALL)
@@ -257,7 +288,7 @@ def doc_case(drv, rnd, cls=None, depth=2, mixed_chk=False, mutate=True, copy=Fal
     w.tostr(root)
     ids = list(w.objs)
     if mutate:
-        for _ in range(rnd.randint(1, 5)):
+        for _ in range(rnd.randint(1, 6)):
             i = rnd.choice(ids)
             o = w.objs[i]
             r = rnd.random()
@@ -281,6 +312,26 @@ def doc_case(drv, rnd, cls=None, depth=2, mixed_chk=False, mutate=True, copy=Fal
                 tbl = ATTRS.get(type(o).__name__)
                 if tbl:
                     w.getattr_(i, rnd.choice(tbl)[0].replace('-', '_'))
+            elif r < 0.85 and dots and type(o).TYPE.__name__ in containers:
+                names = ALPHA[type_key(type(o).TYPE)]
+                cn = rnd.choice(names + ['foo', 'level']) if rnd.random() < 0.9 else 'note'
+                key = 'xml_' + cn.replace('-', '_')
+                ccls = BY_NAME.get(cn)
+                q = rnd.random()
+                nid[0] += 1
+                if q < 0.2:
+                    w.dotx(i, key, nid[0], None)
+                elif q < 0.5 and ccls is not None:
+                    j = nid[0]; nid[0] += 1
+                    m0, r0 = w.newe(j, ccls, True, pick_value(ccls, rnd, True), [])
+                    if r0 == 'ok' and m0 == 'ok':
+                        w.dotx(i, key, nid[0], inst=j)
+                elif q < 0.6:
+                    w.getx(i, key)
+                else:
+                    v = pick_value(ccls, rnd, rnd.random() < 0.8) if ccls is not None else 1
+                    w.dotx(i, key, nid[0], v)
+                ids[:] = list(w.objs)
             else:
                 w.tostr(i, rnd.random() < 0.2)
         w.tostr(root)
